@@ -349,7 +349,12 @@ impl GatewayBinder {
     pub fn proof(&mut self, p: &J, data: &J) -> Proof {
         let set = jstr(p, "set");
         let ws = self.signers(&set);
-        let sh = self.set_hash[&set];
+        // `signedFor`: the signatures were made for ANOTHER set's digest (genuine signatures of that set, re-used in a
+        // proof that declares a differently shaped signer list)
+        let sh = match p.get("signedFor").and_then(|x| x.as_str()) {
+            Some(o) => self.set_hash[o],
+            None => self.set_hash[&set],
+        };
         let (right, wcmd, wdata) = self.data_hashes(data);
         let other_sh = self.set_hash[&self.other_set(&set)];
         let sigs = jstrs(p, "sigs");
